@@ -471,7 +471,8 @@ def write_evidence(a, prop, recs, assumed, R, seed, wall, n_obl, n_proved, viola
         'assumed_contracts': [{'contract': c.id, 'note': c.note} for c in assumed],
         'inlined_helpers': sorted(R.inline_keys),
         'opaque_externals': sorted(R.opaque) + sorted(R.effects),
-        'dropped_by_extraction': DROPPED,
+        'dropped_by_extraction': DROPPED + sorted({f"{f_['function']}: STATEMENT SLICE - lines {f_['lines'][0]}-{f_['lines'][1]} of {f_['function'].split('$')[0]} lifted mechanically into a function of the "
+                                                   f"locals they read; every other statement of that function is dropped (not verified by this contract)" for f_ in funcs if '$' in str(f_.get('function', ''))}),
         'known_findings': [f"{k['obligation']}: {k['what']}" for k, _ in known_hit],
         'undecided': [f'{t}: {u}'[:300] for t, u in undecided],
         'explanation': contracts.EXPLAIN.get(prop, ''),
